@@ -306,7 +306,7 @@ class Taxonomy(object):
             raise KeyError("Leaves names are not unique ! Leaves founded: {}".format(int_names))
 
         # Check for internal names
-        if len(set(int_names)) != len(set(int_names)):
+        if len(int_names) != len(set(int_names)):
             raise KeyError("Internal Names are not unique. Internal names founded: {}. If you specify use_internal_name=False, please report the bug to us.".format(int_names))
 
     def _add_depth(self, node, depth=0):
